@@ -160,7 +160,7 @@ func verify(root *model.Node, doc jv.V, path string) ([]string, bool) {
 
 func typedKind(n *model.Node) bool {
 	switch n.Kind {
-	case model.KString, model.KInteger, model.KNumber, model.KBoolean, model.KArray, model.KObject:
+	case model.KString, model.KInteger, model.KNumber, model.KBoolean, model.KArray, model.KObject, model.KNull:
 		return true
 	}
 	return false
@@ -194,6 +194,8 @@ func jsonTypeOK(n *model.Node, name string) bool {
 		return name == "array" || name == "array1"
 	case model.KObject:
 		return name == "object" || name == "object1"
+	case model.KNull:
+		return false // only null is of type null
 	}
 	return true
 }
@@ -211,7 +213,7 @@ func Mutants(t *rapid.T, root *model.Node, valid jv.V, kinds map[string]bool, o 
 	}
 	for _, p := range Positions(root, valid) {
 		n := p.Node
-		if p.Val.K == jv.Null {
+		if p.Val.K == jv.Null && n.Kind != model.KNull {
 			continue
 		}
 		if kinds["type"] && typedKind(n) {
@@ -226,12 +228,15 @@ func Mutants(t *rapid.T, root *model.Node, valid jv.V, kinds map[string]bool, o 
 			// handled at member level below
 		}
 		if kinds["required"] && p.Parent != nil && p.Delete != nil && !p.InAddl {
+			// every present declared key is deleted in turn; the oracle decides whether that
+			// breaks a required rule (the rule may be stated by a sibling allOf branch)
 			child := p.Parent.Prop(p.Key)
-			if child != nil && p.Parent.IsRequired(p.Key) && child.Default == nil {
-				rules, ok := verify(root, p.Delete(), p.Path)
-				if ok {
-					out = append(out, Mutant{Doc: p.Delete(), Rules: rules, Path: p.Path, Label: "required", Pos: p})
-				} else {
+			if child != nil && child.Default == nil && (p.Parent.IsRequired(p.Key) || p.InBranch) {
+				d := p.Delete()
+				rules, ok := verify(root, d, p.Path)
+				if ok && len(rules) == 1 && rules[0] == "required" {
+					out = append(out, Mutant{Doc: d, Rules: rules, Path: p.Path, Label: "required", Pos: p})
+				} else if p.Parent.IsRequired(p.Key) {
 					discarded++
 				}
 			}
